@@ -13,7 +13,7 @@
 EXTENDS HoldCore, FiniteSets, TLC, Json, IOUtils
 Cases == JsonDeserialize(IOEnv.CASES)
 InitArgs == [v |-> "init", x |-> "-", ov |-> "-"]
-Truth(s) == s.v = "1"
+Truth(s) == s.v \in {"1", "2"}          \* the expression is  pyscript.a in ['1', '2']: a change 1 -> 2 is a further TRUE evaluation
 AllFlags == {"noneval-false", "latest-args", "no-init-fire", "wait-no-false-start"}
 
 RECURSIVE Run(_, _, _, _)
